@@ -164,3 +164,64 @@ func bigWorldProbe(n int, values bool) (msg string) {
 	}
 	return ""
 }
+
+// cacheChurnProbe: more filter registrations in one world's lifetime than fit 16 bits, with one
+// early registration kept alive throughout (enumerated part of C07).
+func cacheChurnProbe(rounds int) (msg string) {
+	defer func() {
+		if p := recover(); p != nil {
+			msg = fmt.Sprintf("filter churn (%d registrations): panic: %v", rounds, p)
+		}
+	}()
+	w := ecs.NewWorld()
+	idA, idB := ecs.ComponentID[bigA](&w), ecs.ComponentID[bigB](&w)
+	as, bs := map[ecs.Entity]bool{}, map[ecs.Entity]bool{}
+	for i := 0; i < 3; i++ {
+		as[w.NewEntity(idA)] = true
+	}
+	for i := 0; i < 2; i++ {
+		bs[w.NewEntity(idB)] = true
+	}
+	sel := func(f ecs.Filter) map[ecs.Entity]bool {
+		out := map[ecs.Entity]bool{}
+		q := w.Query(f)
+		for q.Next() {
+			out[q.Entity()] = true
+		}
+		return out
+	}
+	same := func(a, b map[ecs.Entity]bool) bool {
+		if len(a) != len(b) {
+			return false
+		}
+		for k := range a {
+			if !b[k] {
+				return false
+			}
+		}
+		return true
+	}
+	fA, fB := ecs.All(idA), ecs.All(idB)
+	long := w.Cache().Register(&fA)
+	for i := 0; i < rounds; i++ {
+		c := w.Cache().Register(&fB)
+		if i%4096 == 0 || i >= rounds-3 || (i >= 65530 && i <= 65540) {
+			if got := sel(&long); !same(got, as) {
+				return fmt.Sprintf("after %d further registrations the long-lived registered filter selects %v, its original selects %v", i+1, got, as)
+			}
+			if got := sel(&c); !same(got, bs) {
+				return fmt.Sprintf("registration number %d selects %v, its original selects %v", i+2, got, bs)
+			}
+		}
+		if orig := w.Cache().Unregister(&c); orig != ecs.Filter(&fB) {
+			return fmt.Sprintf("Unregister of registration number %d returned another filter", i+2)
+		}
+	}
+	if got := sel(&long); !same(got, as) {
+		return fmt.Sprintf("after %d registrations the long-lived registered filter selects %v, its original selects %v", rounds, got, as)
+	}
+	if orig := w.Cache().Unregister(&long); orig != ecs.Filter(&fA) {
+		return "Unregister of the long-lived filter returned another filter"
+	}
+	return ""
+}
